@@ -159,6 +159,16 @@ SMALL_FMTS = [mkfmt(), mkfmt("", "auto", "", True, "% {n}"), mkfmt(" ", 4, "\n",
 
 def gen(tier, rng):
     depth = 3 if tier == "quick" else 4
+    # the same through write_string (default write stack, then the writer): small libraries of every block shape
+    for n in (1, 2):
+        for bs in itertools.product(SMALL_BLOCKS, repeat=n):
+            yield {"fmt": SMALL_FMTS[(n + len(repr(bs))) % len(SMALL_FMTS)], "blocks": list(bs), "ws": 1}
+    # a library object with a history: it held an entry with a long field key, its views were read, the entry was removed
+    for col in ("auto", 7):
+        for keys in (["abc", "k" * 9], ["a"], []):
+            yield {"fmt": mkfmt(" ", col, "\n", False),
+                   "blocks": [["entry", "a", "k", [[k, "{v}"] for k in keys], "r"], ["string", "s", "{x}", "r"]],
+                   "hist": ["entry", "a", "zzhist", [["k" * 30, "{v}"]], "r"]}
     for n in range(depth + 1):
         for bs in itertools.product(SMALL_BLOCKS, repeat=n):
             if n == depth and tier == "thorough":
@@ -207,6 +217,10 @@ def gen(tier, rng):
         c = {"fmt": _rand_fmt(rng), "blocks": bl}
         if rng.random() < 0.04:
             c["prev"] = [_rand_entry(rng)[3] for d in bl if d[0] == "entry"]
+        if rng.random() < 0.03:
+            c["hist"] = _rand_entry(rng, key="zzhist")
+        if rng.random() < 0.03:
+            c["ws"] = 1
         if rng.random() < 0.05:
             c["warm"] = rng.choice([0, 3, 11, 25, "auto"])
         if bl and rng.random() < 0.1:
@@ -251,6 +265,13 @@ def _prewrite(lib, case, F):
     entries between two writes): nothing remembered from the earlier write may reach the later one"""
     from bibtexparser import writer
     from bibtexparser import model as M
+    hist = case.get("hist")
+    if hist is not None:
+        # the library held another entry before; its views were read while it did; then it was removed
+        extra = W.build_block(hist, 999)
+        lib.add(extra)
+        _views = (list(lib.entries), list(lib.strings), list(lib.preambles), list(lib.comments), dict(lib.entries_dict), list(lib.failed_blocks))
+        lib.remove(extra)
     prev = case.get("prev")
     if prev is None:
         return
@@ -268,8 +289,44 @@ def _prewrite(lib, case, F):
         e.fields = fs
 
 
+def _ws_check(case):
+    """through the entry point: write_string(library, bibtex_format=F) - the default write stack first encloses every value
+    in braces - is the writer's text for the library whose values are so enclosed: every block is written, none is lost"""
+    import bibtexparser
+    from bibtexparser import writer
+    if not _writable(case):
+        return None
+
+    def wrap(d):
+        if d[0] == "entry":
+            return [d[0], d[1], d[2], [[k, "{" + v + "}"] for k, v in d[3]]] + list(d[4:])
+        if d[0] == "string":
+            return [d[0], d[1], "{" + d[2] + "}"] + list(d[3:])
+        return d
+
+    lib = W.build_library(case["blocks"], case.get("same_line", False))
+    lib2 = W.build_library([wrap(d) for d in case["blocks"]], case.get("same_line", False))
+    try:
+        want = writer.write(lib2, build_fmt(case["fmt"]))
+    except RecursionError:
+        raise
+    except Exception as e:  # noqa
+        want = "raise " + type(e).__name__
+    try:
+        got = bibtexparser.write_string(lib, bibtex_format=build_fmt(case["fmt"]))
+    except RecursionError:
+        raise
+    except Exception as e:  # noqa
+        got = "raise " + type(e).__name__
+    if got != want:
+        return "write_string(library, bibtex_format=...) gives %r, the writer on the library with every value in braces %r" % (got[:200], want[:200])
+    return None
+
+
 def impl(case):
     from bibtexparser import writer
+    if case.get("ws") and _ws_check(case) is not None:
+        return "(write-string-differs)"
     lib = W.build_library(case["blocks"], case.get("same_line", False))
     F = build_fmt(case["fmt"])
     _prewrite(lib, case, F)
@@ -337,6 +394,10 @@ def oracle(case):
     from bibtexparser import model as M
     if not _writable(case):
         return None
+    if case.get("ws"):
+        r = _ws_check(case)
+        if r:
+            return r
     lib = W.build_library(case["blocks"], case.get("same_line", False))
     f = case["fmt"]
     F = build_fmt(f)
